@@ -78,7 +78,9 @@ try:
         out["import_error"] = "%s: %s" % (type(e).__name__, e)
         out["tb"] = traceback.format_exc()[-1500:]
         print("@@JSON " + json.dumps(out))
-        sys.exit(0)
+        sys.stdout.flush()
+        import os
+        os._exit(0)
     from stepcode.SCLBase import BaseEntityClass
     from stepcode.ConstructedDataTypes import SELECT
     from stepcode.BaseType import Aggregate
@@ -304,6 +306,11 @@ def cmp_agg(sch, tr, g, info):
             return "element type %r, declared a nested aggregate" % (base,)
         return cmp_agg(sch, of, base, info)
     if isinstance(base, dict):
+        r = sch.resolve(of) if of["k"] == "named" else None
+        if r and r[0] == "agg":
+            # element is a named aggregate type and the generator wrote out its definition
+            info["classes"].add("aggregate-element-named-by-underlying-type(accepted)")
+            return cmp_agg(sch, r[1], base, info)
         return "element type is an aggregate, declared %s" % exprender.typeref(of)
     if of["k"] in SIMPLE:
         ok = base == of["k"] or (of["k"] == "BOOLEAN" and base in ("bool", "BOOLEAN"))
